@@ -252,6 +252,8 @@ class Run:
         return code
 
     def _write_evidence(self, wall: float, total: int, new, matched) -> None:
+        if os.environ.get("VERIF_NO_EVIDENCE"):
+            return  # development runs against scratch copies (tools/benign.sh); never set by the manifest commands
         os.makedirs(EVIDENCE_DIR, exist_ok=True)
         samples: list = []
         for st in self.rules.values():
